@@ -86,6 +86,23 @@ func runC02(env *Env, tier string) {
 	}
 	startN := env.EventN()
 
+	// In a share of the runs the store refuses some of the writes that assign an outbound number.
+	storeFaults := ch.Chance("storefaults", 1, 5)
+	if storeFaults {
+		failAt := map[int]bool{}
+		for k := 1 + ch.Choose("nstorefaults", 3); k > 0; k-- {
+			failAt[ch.Choose("storefaultat", 24)] = true
+		}
+		var idx atomic.Int32
+		s.E.SF.Fail = func(op string, n int) error {
+			if failAt[int(idx.Add(1))-1] {
+				env.Stat("fault_store_write_refused")
+				return fmt.Errorf("injected: store refuses %s %d", op, n)
+			}
+			return nil
+		}
+		env.OnCleanup(func() { s.E.SF.Fail = nil })
+	}
 	// ---- interleaving mode on ----
 	sched := simsync.NewScheduler()
 	sched.AutoSites["session.go:run"] = "session"
@@ -368,13 +385,13 @@ func runC02(env *Env, tier string) {
 	}
 	env.State("il:" + strconv.FormatUint(h%1000003, 36))
 
-	judgeC02(env, s, c, ops, startN, rrNs)
+	judgeC02(env, s, c, ops, startN, rrNs, storeFaults, logonRace)
 	env.Nontrivial = interleaved
 }
 
 // judgeC02 evaluates invariants (i)-(vi) over everything recorded after event startN. Sequence-number
 // epochs are delimited by the store's Reset calls.
-func judgeC02(env *Env, s *Sut, c EngineCfg, ops []c02op, startN int, rrNs []int) {
+func judgeC02(env *Env, s *Sut, c EngineCfg, ops []c02op, startN int, rrNs []int, storeFaults, logonRace bool) {
 	type sv struct {
 		n, num, epoch int
 		msg           []byte
@@ -530,7 +547,7 @@ func judgeC02(env *Env, s *Sut, c EngineCfg, ops []c02op, startN int, rrNs []int
 				}
 			}
 		}
-		lastLogon, loggedOut := startN, false
+		lastLogon, loggedOut := startN, logonRace // (the logon under the scheduler may never complete)
 		for _, ac := range s.E.App.Snapshot() {
 			if ac.N > startN && ac.Kind == "OnLogon" {
 				lastLogon, loggedOut = ac.N, false
@@ -600,7 +617,9 @@ func judgeC02(env *Env, s *Sut, c EngineCfg, ops []c02op, startN int, rrNs []int
 			resetsInWindow++
 		}
 	}
-	if len(hist) > 0 && len(hist) <= 40 && resetsInWindow == 0 {
+	// (with refused writes a number is handed out again, to whoever comes next: the per-client attribution of
+	// engine-generated messages below would be ambiguous, and (i)-(iv) already cover those runs)
+	if len(hist) > 0 && len(hist) <= 40 && resetsInWindow == 0 && !storeFaults {
 		first := -1
 		for _, op := range hist {
 			if first < 0 || op.Output.(int) < first {
